@@ -26,6 +26,8 @@ def setup(ctx, anchors=(), idx_sample_every=1):
 
 def finish(ctx):
     hub = ctx.hub
+    if HISTORY["ghosts"]:
+        ctx.counters["documents_preceded_by_a_dead_twin_and_failed_calls"] += HISTORY["ghosts"]
     if ELSEWHERE["built"] or ELSEWHERE["failed"]:
         ctx.counters["documents_built_in_another_process_and_unpickled"] += ELSEWHERE["built"]
         ctx.counters["documents_built_in_another_process.failed"] += ELSEWHERE["failed"]
@@ -133,11 +135,116 @@ def build_elsewhere(ops):
         return None
 
 
+HISTORY = {"ghosts": 0, "failed_call_preludes": 0, "one_in": 25}
+
+
+def ghost_ops(ops):
+    """The same program -- same identifiers, same shape, same record counts -- with other attribute values."""
+    import copy
+    out = copy.deepcopy(ops)
+
+    def walk(x):
+        if isinstance(x, dict):
+            if x.get("k") == "str" and isinstance(x.get("v"), str):
+                x["v"] = x["v"] + "~ghost"
+            elif x.get("k") == "int" and isinstance(x.get("v"), int):
+                x["v"] = x["v"] + 1
+            for v in x.values():
+                walk(v)
+        elif isinstance(x, list):
+            for v in x:
+                walk(v)
+
+    walk(out)
+    return out
+
+
+def exercise(doc):
+    """Everything a long-running service does with a document before dropping it (each call may raise: not judged here)."""
+    import io
+    calls = [lambda: doc.unified(), lambda: doc.flattened(), lambda: doc.get_provn(), lambda: doc.serialize(format="json"),
+             lambda: doc.serialize(format="xml"), lambda: doc.serialize(format="rdf"), lambda: doc == doc, lambda: [hash(r) for r in doc.get_records()],
+             lambda: [doc.get_record(r.identifier) for r in doc.get_records()[:5] if r.identifier is not None],
+             lambda: pm.ProvDocument.deserialize(content=doc.serialize(format="json"), format="json"),
+             lambda: pm.ProvDocument.deserialize(content=doc.serialize(format="xml"), format="xml")]
+    try:
+        from prov.dot import prov_to_dot
+        from prov.graph import prov_to_graph
+        calls += [lambda: prov_to_dot(doc), lambda: prov_to_graph(doc)]
+    except Exception:
+        pass
+    for c in calls:
+        try:
+            c()
+        except Exception:
+            pass
+
+
+FAILING_XML = (b'<?xml version="1.0" encoding="UTF-8"?><prov:document xmlns:prov="http://www.w3.org/ns/prov#" xmlns:ex="http://ghost.example/">'
+               b'<prov:bundleContent prov:id="ex:ghost-b1"><prov:entity/><prov:entity prov:id="undeclared:x"/></prov:bundleContent>'
+               b'<prov:bundleContent prov:id="ex:ghost-b2"><prov:entity prov:id="ex:ghost-e"/></prov:bundleContent></prov:document>')
+
+
+def failed_calls_prelude():
+    """Calls that fail, as they do now and then in a long-running process: a text that cannot be read, an export whose destination is
+    closed, a stream whose format cannot be detected.  Whatever they leave behind must not reach the next, unrelated document."""
+    import io
+    import prov
+    hub = monitors.HUB
+    hub.quiet += 1
+    try:
+        for f in (lambda: pm.ProvDocument.deserialize(io.BytesIO(FAILING_XML), format="xml"),
+                  lambda: pm.ProvDocument.deserialize(content='{"entity": {"ex:e": {"ex:a": {"$": "1", "type": "undeclared:t"}}}, "bundle": {"ex:b": 5}}', format="json"),
+                  lambda: prov.read(io.StringIO("document\n  prefix ex <http://ghost.example/>\n  entity(ex:ghost)\nendDocument\n")),
+                  lambda: prov.read(io.BytesIO(b"\x00\x01 not a provenance document")),
+                  lambda: _export_to_closed_stream()):
+            try:
+                f()
+            except Exception:
+                pass
+    finally:
+        hub.quiet -= 1
+    HISTORY["failed_call_preludes"] += 1
+
+
+def _export_to_closed_stream():
+    import io
+    d = pm.ProvDocument()
+    d.add_namespace("gh", "http://ghost.example/")
+    b = d.bundle("gh:ghost-bundle")
+    b.entity("gh:ghost-entity", {"gh:k": "ghost"})
+    d.entity("gh:ghost-top")
+    for fmt in ("rdf", "json", "xml", "provn"):
+        s = io.BytesIO()
+        s.close()
+        try:
+            d.serialize(s, format=fmt)
+        except Exception:
+            pass
+
+
 def build(ops, observed=None):
     """Run a program.  observed=None: decided from the program itself (half of the programs are built while read-only
     observations -- accessors, printing, ==/hash, look-ups, listings -- are interleaved with the construction)."""
     import random
     h = gen.case_hash(ops)
+    if HISTORY["one_in"] and int(h[8:12], 16) % HISTORY["one_in"] == 0:
+        # a predecessor of the same shape lived, was used and died just before (objects of the new document are likely to get
+        # its addresses), and some calls failed in between
+        import gc
+        hub = monitors.HUB
+        hub.quiet += 1
+        try:
+            ghost = interp.run(ghost_ops(ops))
+            exercise(ghost.doc)
+            del ghost
+        except Exception:
+            pass
+        finally:
+            hub.quiet -= 1
+        gc.collect()
+        HISTORY["ghosts"] += 1
+        failed_calls_prelude()
     if ELSEWHERE["one_in"] and int(h[2:8], 16) % ELSEWHERE["one_in"] == 0:
         st = build_elsewhere(ops)
         if st is not None:
